@@ -351,6 +351,37 @@ func (c *paramsScript) wagerI(m *coreMarket, who, outcome int, oddsDec string, a
 	c.txDone("wager", err)
 }
 
+// changeBetFee: an accepted MsgUpdateParams moves the wager fee (another value below the minimum amount) while bets are
+// pending; every bet keeps the fee recorded on it
+func (c *paramsScript) changeBetFee() {
+	bp := c.pt.bp
+	minA := bp.Constraints.MinAmount
+	nf := bp.Constraints.Fee.AddRaw(1)
+	if !nf.LT(minA) {
+		nf = sdkmath.ZeroInt()
+	}
+	if nf.Equal(bp.Constraints.Fee) {
+		return
+	}
+	bp.Constraints.Fee = nf
+	err, _ := c.e.Tx(func(ctx sdk.Context) error {
+		bm := &bettypes.MsgUpdateParams{Authority: govAuthority, Params: bp}
+		if err := bm.ValidateBasic(); err != nil {
+			return err
+		}
+		_, err := c.bs.UpdateParams(sdk.WrapSDKContext(ctx), bm)
+		return err
+	})
+	if err != nil {
+		c.out.Count("core.feechange.rejected")
+		return
+	}
+	c.pt.bp = bp
+	c.fee = nf.Int64()
+	c.out.Op("%s", paramsLine(c.pt))
+	c.out.Count("core.feechange.ok")
+}
+
 func (c *paramsScript) endBlockC17() {
 	before := len(c.out.Mon)
 	c.endBlock()
@@ -427,6 +458,7 @@ func paramsCoreHistory(out *Out, h int, pt corePoint) {
 	c.withdrawI(m, 2, 2, 1, sdkmath.ZeroInt())
 	c.withdrawI(m, 1, 1, 1, sdkmath.ZeroInt()) // full-mode withdrawal after partial ones by the same depositor (needs MaxWithdrawalCount >= 2)
 	c.endBlockC17()
+	c.changeBetFee() // the fee moves while the bets of both markets are pending: one market is declared, one cancelled
 	c.resolve(m, 5, 0)
 	c.resolve(m2, 3, 0)
 	for i := 0; i < 7; i++ {
